@@ -56,7 +56,11 @@ func init() {
 					}
 					return mapKeys(rows[0].(map[string]any))
 				}
-				switch rapid.IntRange(0, 3).Draw(t, "aliaskind") {
+				switch rapid.IntRange(0, 5).Draw(t, "aliaskind") {
+				case 4, 5:
+					// one alias is a proper prefix of the other, or they differ in letter case only
+					p := rapid.SampledFrom([][2]string{{"o", "oi"}, {"t2", "t"}, {"a", "ab"}, {"x1", "x"}, {"lr", "l"}, {"r", "rr"}, {"u", "U"}, {"x_y", "x"}}).Draw(t, "aliaspair")
+					c.Alias = p
 				case 0:
 					c.Alias = [2]string{"l", "r"} // the tables' own names
 				case 1:
